@@ -803,6 +803,7 @@ def canon_guard_only(g, text):
 def battery():
     from sa.battery import M
     return [
+        M("incoming balls sampled once before the waiting loop", BC, "        while True:\n            if not self.counter:\n                raise asyncio.CancelledError\n            free_space = self.counter.capacity - self._ball_count\n            incoming_balls = self.ball_device.incoming_balls_handler.get_num_incoming_balls()\n", "        incoming_balls = self.ball_device.incoming_balls_handler.get_num_incoming_balls()\n        while True:\n            if not self.counter:\n                raise asyncio.CancelledError\n            free_space = self.counter.capacity - self._ball_count\n", "STALE-0"),
         M("launch-button plunger no longer ejects on tilt", OB, "                if eject_request.player_controlled:\n                    tilt = self.machine.events.wait_for_event(\"tilt\")", "                if eject_request.player_controlled and self.ball_device.config['mechanical_eject']:\n                    tilt = self.machine.events.wait_for_event(\"tilt\")", "WAIT-5"),
         M("delayed save delivery under a fixed name", "mpf/devices/ball_save.py", "self.delay.add(self.config['eject_delay'], self._add_balls, balls_to_save=balls_to_save)", "self.delay.add(self.config['eject_delay'], self._add_balls, name='eject_delay', balls_to_save=balls_to_save)", "SAVE-5"),
         M("lost ball stays available unless the device was idle", BD, "            self.warning_log(\"Ball disappeared while idle. This should not normally happen.\")\n        self.available_balls -= 1", "            self.warning_log(\"Ball disappeared while idle. This should not normally happen.\")\n            self.available_balls -= 1", "CLAIMS-5"),
